@@ -2,13 +2,13 @@ package driver
 
 import (
 	"bufio"
-	"runtime"
-	"sync/atomic"
 	"encoding/json"
 	"fmt"
 	"os"
+	"runtime"
 	"runtime/debug"
 	"strings"
+	"sync/atomic"
 	"testing"
 	"time"
 
@@ -17,50 +17,50 @@ import (
 
 // ReplayFile is the replay record of one run (also the record of a violation).
 type ReplayFile struct {
-	Property string                 `json:"property"`
-	Engine   string                 `json:"engine"`
-	Class    string                 `json:"class"`
-	Key      string                 `json:"key"`
-	Message  string                 `json:"message"`
-	BaseSeed uint64                 `json:"verif_seed"`
-	Index    int                    `json:"index"`
-	RunSeed  uint64                 `json:"run_seed"`
-	Tier     string                 `json:"tier"`
-	Mode     string                 `json:"mode"` // "tapes" or "generate"
-	Work     []int                  `json:"work"`
-	Sched    []int                  `json:"sched"`
-	Race     bool                   `json:"race_build"`
-	Minimised map[string]int        `json:"minimised,omitempty"`
-	Sample   interface{}            `json:"sample,omitempty"`
-	Detail   map[string]interface{} `json:"detail,omitempty"`
-	Events   []simrt.Event          `json:"events,omitempty"`
+	Property  string                 `json:"property"`
+	Engine    string                 `json:"engine"`
+	Class     string                 `json:"class"`
+	Key       string                 `json:"key"`
+	Message   string                 `json:"message"`
+	BaseSeed  uint64                 `json:"verif_seed"`
+	Index     int                    `json:"index"`
+	RunSeed   uint64                 `json:"run_seed"`
+	Tier      string                 `json:"tier"`
+	Mode      string                 `json:"mode"` // "tapes" or "generate"
+	Work      []int                  `json:"work"`
+	Sched     []int                  `json:"sched"`
+	Race      bool                   `json:"race_build"`
+	Minimised map[string]int         `json:"minimised,omitempty"`
+	Sample    interface{}            `json:"sample,omitempty"`
+	Detail    map[string]interface{} `json:"detail,omitempty"`
+	Events    []simrt.Event          `json:"events,omitempty"`
 }
 
 type Summary struct {
-	Type        string         `json:"type"`
-	Runs        int            `json:"runs"`
-	Evals       int64          `json:"evals"`
-	Nontrivial  int            `json:"nontrivial"`
-	Hashes      []string       `json:"hashes"`
-	HashesCapped bool          `json:"hashes_capped"`
-	Probes      map[string]int `json:"probes"`
-	Faults      map[string]int `json:"faults"`
-	Outcomes    map[string]int `json:"outcomes"`
-	Steps       int64          `json:"steps"`
-	Picks       int64          `json:"picks"`
-	Switches    int64          `json:"switches"`
-	Preemptions int64          `json:"preemptions"`
-	Tasks       int64          `json:"tasks"`
-	ClockJumps  int64          `json:"clock_jumps"`
-	LockWaits   int64          `json:"lock_waits"`
-	SimNanos    int64          `json:"sim_ns"`
-	Checks      int64          `json:"checks"`
-	SwitchPairs []string       `json:"switch_pairs"`
-	Samples     []interface{}  `json:"samples"`
-	WallS       float64        `json:"wall_s"`
-	From, To    int
-	Done        int            `json:"done"`
-	Violations  int            `json:"violations"`
+	Type         string         `json:"type"`
+	Runs         int            `json:"runs"`
+	Evals        int64          `json:"evals"`
+	Nontrivial   int            `json:"nontrivial"`
+	Hashes       []string       `json:"hashes"`
+	HashesCapped bool           `json:"hashes_capped"`
+	Probes       map[string]int `json:"probes"`
+	Faults       map[string]int `json:"faults"`
+	Outcomes     map[string]int `json:"outcomes"`
+	Steps        int64          `json:"steps"`
+	Picks        int64          `json:"picks"`
+	Switches     int64          `json:"switches"`
+	Preemptions  int64          `json:"preemptions"`
+	Tasks        int64          `json:"tasks"`
+	ClockJumps   int64          `json:"clock_jumps"`
+	LockWaits    int64          `json:"lock_waits"`
+	SimNanos     int64          `json:"sim_ns"`
+	Checks       int64          `json:"checks"`
+	SwitchPairs  []string       `json:"switch_pairs"`
+	Samples      []interface{}  `json:"samples"`
+	WallS        float64        `json:"wall_s"`
+	From, To     int
+	Done         int `json:"done"`
+	Violations   int `json:"violations"`
 }
 
 func runSeed(base uint64, prop string, idx int) uint64 {
